@@ -9,7 +9,7 @@ OWNERS = (P1, P2, PR)
 NAMES = ("a", "b", "c", "d", "e", "f")
 # action names that are prefixes / substrings of each other, empty, blank, or look like other tokens
 TRICKY_NAMES = ("a", "aa", "ab", "", " ", "b", "None", "a,b", "Down", "down", "0")
-REWARD_POOL = (0, 0, 0, 1, 1, 2, 3, 5, 0.5, 7.25, 1000, 1e6, 1e-3, 2.5e7, -0.0, True)
+REWARD_POOL = (0, 0, 0, 1, 1, 2, 3, 5, 0.5, 7.25, 1000, 1e6, 1e-3, 2.5e7, -0.0, True, 1e20, 10 ** 25)
 GENERIC_REWARDS = (0, 1, 2.5, 3.25, 5 / 7, 11 / 7, 13 / 7, 1.4142135623730951, 0.3, 4.75, 6.125, 17 / 3)
 
 
